@@ -1187,6 +1187,197 @@ impl Subject for PipeSubj {
     }
 }
 
+// ---------------------------------------------------------------------------------------------
+// "Upgrade": a file written by an OLD build (data version 0, the old struct) and read by a NEW build (version 1):
+// removed fields, fields added with a default, a field whose type changed (converted on load), enum variants
+// with removed fields / added variants, versioned elements inside a Vec. The versioned read path is code of its
+// own (per-field version tests, Removed<T> skipping, conversions) and must obey C06/C07/C08/C14 like any other.
+// ---------------------------------------------------------------------------------------------
+#[derive(Savefile, Debug, PartialEq, Clone)]
+pub struct UpOldItem {
+    pub id: u32,
+    pub label: String,
+    pub weight: u16,
+}
+#[derive(Savefile, Debug, PartialEq, Clone)]
+pub struct UpNewItem {
+    pub id: u32,
+    #[savefile_versions = "0..0"]
+    pub label: Removed<String>,
+    pub weight: u16,
+    #[savefile_versions = "1.."]
+    #[savefile_default_val = "7"]
+    pub extra: u8,
+}
+#[derive(Savefile, Debug, PartialEq, Clone)]
+pub enum UpOldKind {
+    A,
+    B(u32),
+    C { x: u16, y: u16 },
+}
+#[derive(Savefile, Debug, PartialEq, Clone)]
+pub enum UpNewKind {
+    A,
+    B(u32),
+    C {
+        x: u16,
+        #[savefile_versions = "0..0"]
+        y: Removed<u16>,
+    },
+    #[savefile_versions = "1.."]
+    D(String),
+}
+#[derive(Savefile, Debug, PartialEq, Clone)]
+pub struct UpNum {
+    pub v: u32,
+}
+pub fn up_parse(s: String) -> UpNum {
+    UpNum { v: s.parse().unwrap_or(0) }
+}
+#[derive(Savefile, Debug, PartialEq, Clone)]
+pub struct UpOld {
+    pub a: String,
+    pub b: Vec<String>,
+    pub c: u64,
+    pub n: String,
+    pub items: Vec<UpOldItem>,
+    pub kind: UpOldKind,
+    pub tail: Vec<u32>,
+}
+#[derive(Savefile, Debug, PartialEq, Clone)]
+pub struct UpNew {
+    pub a: String,
+    #[savefile_versions = "0..0"]
+    pub b: Removed<Vec<String>>,
+    #[savefile_default_val = "123"]
+    #[savefile_versions = "1.."]
+    pub newb: u32,
+    pub c: u64,
+    #[savefile_versions_as = "0..0:up_parse:String"]
+    #[savefile_versions = "1.."]
+    pub n: UpNum,
+    pub items: Vec<UpNewItem>,
+    pub kind: UpNewKind,
+    pub tail: Vec<u32>,
+}
+pub fn upgrade(o: &UpOld) -> UpNew {
+    UpNew {
+        a: o.a.clone(),
+        b: Removed::new(),
+        newb: 123,
+        c: o.c,
+        n: up_parse(o.n.clone()),
+        items: o.items.iter().map(|i| UpNewItem { id: i.id, label: Removed::new(), weight: i.weight, extra: 7 }).collect(),
+        kind: match &o.kind {
+            UpOldKind::A => UpNewKind::A,
+            UpOldKind::B(x) => UpNewKind::B(*x),
+            UpOldKind::C { x, .. } => UpNewKind::C { x: *x, y: Removed::new() },
+        },
+        tail: o.tail.clone(),
+    }
+}
+/// what the old build wrote (absent for values that came out of a load) and what the new build must see
+pub struct UpVal {
+    pub old: Option<UpOld>,
+    pub new: UpNew,
+}
+pub struct UpSubj;
+impl Subject for UpSubj {
+    fn name(&self) -> &'static str {
+        "Upgrade"
+    }
+    fn gen(&self, rng: &mut Rng, sc: u8, hint: usize) -> Val {
+        let n = len_for(rng, sc, hint / 24).min(400);
+        let old = UpOld {
+            a: gen_string(rng, sc, hint),
+            b: (0..len_for(rng, sc.min(2), 0).min(9)).map(|_| gen_string(rng, sc.min(2), 0)).collect(),
+            c: rng.next_u64(),
+            n: if rng.chance(1, 6) { gen_string(rng, 1, 0) } else { format!("{}", rng.next_u64() as u32) },
+            items: (0..n).map(|_| UpOldItem { id: rng.next_u64() as u32, label: gen_string(rng, sc.min(2), 0), weight: rng.next_u64() as u16 }).collect(),
+            kind: match rng.below(3) {
+                0 => UpOldKind::A,
+                1 => UpOldKind::B(rng.next_u64() as u32),
+                _ => UpOldKind::C { x: rng.next_u64() as u16, y: rng.next_u64() as u16 },
+            },
+            tail: (0..len_for(rng, sc, hint / 8)).map(|_| rng.next_u64() as u32).collect(),
+        };
+        let new = upgrade(&old);
+        Box::new(UpVal { old: Some(old), new })
+    }
+    fn save(&self, v: &Val, w: &mut dyn DynWrite, c: Container, key: [u8; 32]) -> Result<(), SavefileError> {
+        let v: &UpVal = v.downcast_ref::<UpVal>().expect("type");
+        let old = v.old.as_ref().expect("only generated values are saved");
+        let mut w = W(w);
+        match c {
+            Container::Plain => savefile::save(&mut w, 0, old),
+            Container::NoSchema => savefile::save_noschema(&mut w, 0, old),
+            Container::Compressed => savefile::save_compressed(&mut w, 0, old),
+            Container::EncPlain | Container::EncCompressed => {
+                let mut writer = CryptoWriter::new(&mut w, key)?;
+                Serializer::<CryptoWriter>::save::<UpOld>(&mut writer, 0, old, c == Container::EncCompressed)?;
+                writer.flush()?;
+                Ok(())
+            }
+        }
+    }
+    fn load(&self, r: &mut dyn DynRead, c: Container, key: [u8; 32]) -> Result<Val, SavefileError> {
+        let mut r = R(r);
+        let new: UpNew = match c {
+            Container::Plain | Container::Compressed => savefile::load::<UpNew>(&mut r, 1)?,
+            Container::NoSchema => savefile::load_noschema::<UpNew>(&mut r, 1)?,
+            Container::EncPlain | Container::EncCompressed => {
+                let mut reader = CryptoReader::new(&mut r, key)?;
+                Deserializer::<CryptoReader>::load::<UpNew>(&mut reader, 1)?
+            }
+        };
+        Ok(Box::new(UpVal { old: None, new }))
+    }
+    fn same(&self, a: &Val, b: &Val) -> bool {
+        a.downcast_ref::<UpVal>().expect("type").new == b.downcast_ref::<UpVal>().expect("type").new
+    }
+    fn bare(&self, v: &Val) -> Vec<u8> {
+        let mut out = Vec::new();
+        let _ = Serializer::bare_serialize(&mut out, 1, &v.downcast_ref::<UpVal>().expect("type").new);
+        out
+    }
+    fn walk(&self, v: &Val, w: &mut Walker) {
+        let n = &v.downcast_ref::<UpVal>().expect("type").new;
+        if w.collection("String", n.a.len(), 1) {
+            w.elements_touched += n.a.chars().count() as u64;
+        }
+        w.prim(8);
+        if w.collection("Vec<UpNewItem>", n.items.len(), 6 + 8) {
+            let mut acc = 0u64;
+            for i in &n.items {
+                acc = acc.wrapping_add(i.id as u64 + i.weight as u64 + i.extra as u64);
+            }
+            std::hint::black_box(acc);
+            w.elements_touched += n.items.len() as u64;
+        }
+        if let UpNewKind::D(s) = &n.kind {
+            w.collection("String", s.len(), 1);
+        }
+        if w.collection("Vec<u32>", n.tail.len(), 4) {
+            let mut acc = 0u64;
+            for x in &n.tail {
+                acc = acc.wrapping_add(*x as u64);
+            }
+            std::hint::black_box(acc);
+            w.elements_touched += n.tail.len() as u64;
+        }
+    }
+    fn save_encrypted_file(&self, v: &Val, path: &std::path::Path, _c: bool, password: &str) -> Result<(), SavefileError> {
+        savefile::save_encrypted_file(path, 0, v.downcast_ref::<UpVal>().expect("type").old.as_ref().expect("generated"), password)
+    }
+    fn load_encrypted_file(&self, path: &std::path::Path, password: &str) -> Result<Val, SavefileError> {
+        Ok(Box::new(UpVal { old: None, new: savefile::load_encrypted_file::<UpNew, _>(path, 1, password)? }))
+    }
+    fn debug(&self, v: &Val) -> String {
+        let s = format!("{:?}", v.downcast_ref::<UpVal>().expect("type").new);
+        s.chars().take(300).collect()
+    }
+}
+
 macro_rules! subj {
     ($t:ty, $n:expr) => {
         &Subj::<$t>($n, std::marker::PhantomData) as &dyn Subject
@@ -1213,6 +1404,7 @@ pub fn subjects() -> Vec<&'static dyn Subject> {
         subj!(Misc, "Misc"),
         subj!(Misc2, "Misc2"),
         &PipeSubj as &dyn Subject,
+        &UpSubj as &dyn Subject,
     ]
 }
 pub fn subject(name: &str) -> &'static dyn Subject {
